@@ -9,7 +9,7 @@
     [generate]. *)
 From Coq Require Import List NArith String Ascii Bool Lia Arith.
 From V Require Import Base.Strings Base.Result Model.Registry Model.Settings Model.Subst
-  Model.TypePath Model.Derives Model.Generate Model.WellFormed Model.Renumber Model.MissingId
+  Model.TypePath Model.Derives Model.Generate Model.Emit Model.WellFormed Model.Renumber Model.MissingId
   Proofs.GenProofs Proofs.ResolveTotal Proofs.FidelityBase Proofs.MissingId Proofs.MissingIdGen
   Proofs.MissingIdDescent Proofs.MissingIdGuard Corr.CheckTG.
 Import ListNotations.
@@ -366,7 +366,7 @@ Section Verdicts.
   Theorem gen_verdict_model teq :
     unique_item_paths r s -> dr_recursive (s_dreg s) = [] ->
     match fst (gen_verdict r s) with
-    | DClean => exists items, generate r s teq = Ok items
+    | DClean => exists items, generate r s teq = Ok items /\ exists toks, emit_module s items = Ok toks
     | DFail x => x = FMissing m /\ generate r s teq = Err (ETypeNotFound m)
     | DUnsure => True
     end.
